@@ -326,4 +326,48 @@ def evalAgg : (r : Req) → List Doc → Res M r
       let ds := docs.filter (fun d => (compKeys srcs d).contains k)
       (k, ds.length, evalAgg sub ds))
 
+/-- the documents of bucket `k` as the collectors see them: one copy per VALUE of the document
+that falls into the bucket -/
+def repDocs (keysOf : Doc → List Int) (k : Int) (docs : List Doc) : List Doc :=
+  docs.flatMap (fun d => List.replicate ((keysOf d).count k) d)
+
+/-- what the mechanism computes for EVERY input (no hypothesis): like `evalAgg`, but a bucket of a
+histogram / range / composite node counts one per value and hands the document to the
+sub-request once per value.  It coincides with `evalAgg` when no document has two values in one
+bucket (`DocOK`); the difference is the recorded finding
+`C14:histogram-range-doc-count-counts-values`. -/
+def evalAggPV : (r : Req) → List Doc → Res M r
+  | .none, _ => ()
+  | .both a b, docs => (evalAggPV a docs, evalAggPV b docs)
+  | .metric f missing, docs => Acc.ofVals (docs.flatMap (metricVals f missing))
+  | .terms p sub, docs =>
+    let keys := (spanOf (hullOfList (docs.flatMap (termKeys p)))).filter
+      (fun k => docs.any (fun d => (termKeys p d).contains k))
+    let all := keys.map fun k =>
+      let ds := repDocs (termKeys p) k docs
+      (k, ds.length, evalAggPV sub ds)
+    termsFinal p all 0 0
+  | .hist p sub, docs =>
+    let hull := hullOfList (docs.flatMap (histPoss p))
+    let bucket := fun k =>
+      let ds := repDocs (histPoss p) k docs
+      (k, ds.length, evalAggPV sub ds)
+    if p.minDocCount = 0 then (histSpan p hull).map bucket
+    else ((spanOf hull).map bucket).filter (fun b => decide (p.minDocCount ≤ b.2.1))
+  | .range f cuts sub, docs =>
+    (intSpan 0 cuts.length).map fun k =>
+      let ds := repDocs (rangeIdxs f cuts) k docs
+      (k, ds.length, evalAggPV sub ds)
+  | .filter f v sub, docs =>
+    let ds := docs.filter (filterMatch f v)
+    (ds.length, evalAggPV sub ds)
+  | .topHits f addr k desc, docs =>
+    (isort (hitLe desc) (docs.flatMap (hitEntries f addr))).take k
+  | .composite srcs size after sub, docs =>
+    let keys := (spanOf (hullOfList (docs.flatMap (compKeys srcs)))).filter
+      (fun k => docs.any (fun d => (compKeys srcs d).contains k))
+    compPage size after (keys.map fun k =>
+      let ds := repDocs (compKeys srcs) k docs
+      (k, ds.length, evalAggPV sub ds))
+
 end TantivyModel.Agg
